@@ -1,6 +1,7 @@
 package main
 
 import (
+	"go/types"
 	"fmt"
 	"go/constant"
 	"go/token"
@@ -102,6 +103,7 @@ func ruleRounderDispatch(w *World, r *RuleResult) {
 		return
 	}
 	f := w.fn(shouldAddOne)
+	topPaths, okTop := enumPaths(f, 4096)
 	// keys of roundings (built by the package initialiser)
 	keys := map[string]bool{}
 	for _, n := range w.Names {
@@ -132,9 +134,25 @@ func ruleRounderDispatch(w *World, r *RuleResult) {
 		val := consts[name]
 		key := "Rounder " + name
 		cal, has := table[val]
+		// the mode's own truth table, from ShouldAddOne evaluated as a whole (C20.R2 reports the cells)
+		wholeOK := false
+		if okTop && expectedDecision(name, false, 0) != "?" {
+			wholeOK = true
+			for _, neg := range []bool{false, true} {
+				for _, half := range []int64{-1, 0, 1} {
+					if w.modeDecision(f, topPaths, val, neg, half) != expectedDecision(name, neg, half) {
+						wholeOK = false
+					}
+				}
+			}
+		}
 		switch {
+		case !has && wholeOK && keys[val]:
+			r.ok(key, w.pos(f.Pos()), fmt.Sprintf("%q has no case of its own: it shares the default arm, whose decision has exactly this mode's table", val), true)
 		case !has:
 			r.bad(key, w.pos(f.Pos()), fmt.Sprintf("no case for %q in ShouldAddOne: the mode silently behaves like the default", val))
+		case cal == "<not a call>" && wholeOK && keys[val]:
+			r.ok(key, w.pos(f.Pos()), fmt.Sprintf("%q: the decision is computed in the case itself and has exactly this mode's table; listed in roundings", val), true)
 		case strings.Contains(cal, "|") || !strings.HasPrefix(cal, "round"):
 			r.bad(key, w.pos(f.Pos()), "case does not call exactly one decision function: "+cal)
 		case callees[cal] != "":
@@ -157,13 +175,44 @@ func ruleRounderDispatch(w *World, r *RuleResult) {
 			r.bad("ShouldAddOne case "+k, w.pos(f.Pos()), "case string is not a declared Rounder constant")
 		}
 	}
+	sharesDefault := map[string]bool{}
+	for name, val := range consts {
+		if _, has := table[val]; !has && okTop {
+			all := expectedDecision(name, false, 0) != "?"
+			for _, neg := range []bool{false, true} {
+				for _, half := range []int64{-1, 0, 1} {
+					if all && w.modeDecision(f, topPaths, val, neg, half) != expectedDecision(name, neg, half) {
+						all = false
+					}
+				}
+			}
+			if all {
+				sharesDefault[val] = true
+			}
+		}
+	}
 	for k := range keys {
-		if _, ok := table[k]; !ok {
+		if _, ok := table[k]; !ok && !sharesDefault[k] {
 			r.bad("roundings key "+k, w.pos(f.Pos()), "key of roundings has no case in ShouldAddOne")
 		}
 	}
-	if hu, ok := consts["RoundHalfUp"]; ok && def == table[hu] {
+	// the default arm decides like RoundHalfUp: same callee, or — when computed in place — the half-up table
+	// for a mode string that is none of the constants
+	defHalfUp := false
+	if okTop {
+		defHalfUp = true
+		for _, neg := range []bool{false, true} {
+			for _, half := range []int64{-1, 0, 1} {
+				if w.modeDecision(f, topPaths, "\x00no such mode", neg, half) != expectedDecision("RoundHalfUp", neg, half) {
+					defHalfUp = false
+				}
+			}
+		}
+	}
+	if hu, ok := consts["RoundHalfUp"]; ok && def == table[hu] && def != "<not a call>" {
 		r.ok("ShouldAddOne default", w.pos(f.Pos()), "default case calls "+def+" like RoundHalfUp", true)
+	} else if defHalfUp {
+		r.ok("ShouldAddOne default", w.pos(f.Pos()), "the default arm has RoundHalfUp's table (evaluated for a mode string that is no constant)", true)
 	} else {
 		r.bad("ShouldAddOne default", w.pos(f.Pos()), fmt.Sprintf("default case calls %s, RoundHalfUp calls %s", def, table[consts["RoundHalfUp"]]))
 	}
@@ -184,6 +233,16 @@ type absEnv struct {
 	neg    bool
 	half   int64
 	params map[string]bool // names of neg/half parameters found
+	// bind: values of the parameters of a callee evaluated with the caller's arguments (by position, so
+	// that a swapped or negated argument is seen); nil at top level, where neg/half are found by name
+	bind map[*ssa.Parameter]absVal
+}
+
+type absVal struct {
+	known bool
+	b     tri
+	n     int64
+	isInt bool
 }
 
 // evalInt evaluates an int-typed value over the abstract environment.
@@ -195,6 +254,12 @@ func evalInt(v ssa.Value, env *absEnv, f *ssa.Function) (int64, bool) {
 			return n, ok
 		}
 	case *ssa.Parameter:
+		if env.bind != nil {
+			if bv, ok := env.bind[x]; ok {
+				return bv.n, bv.known && bv.isInt
+			}
+			return 0, false
+		}
 		if x.Name() == "half" {
 			return env.half, true
 		}
@@ -218,6 +283,12 @@ func evalBool(v ssa.Value, env *absEnv, f *ssa.Function, p Path) tri {
 			return tF
 		}
 	case *ssa.Parameter:
+		if env.bind != nil {
+			if bv, ok := env.bind[x]; ok && bv.known && !bv.isInt {
+				return bv.b
+			}
+			return tU
+		}
 		if x.Name() == "neg" {
 			if env.neg {
 				return tT
@@ -357,12 +428,37 @@ func ruleDecisionTables(w *World, r *RuleResult) {
 	if !ok {
 		return
 	}
+	top := w.fn(shouldAddOne)
+	topPaths, okTop := enumPaths(top, 4096)
 	for _, mode := range sortedKeys(consts) {
 		cal := table[consts[mode]]
 		key := "decision function of " + mode
 		g := w.fn(cal)
 		if g == nil {
-			r.bad(key, "?", "no single in-package decision function ("+cal+")")
+			// the decision is computed in ShouldAddOne's own case (or the mode shares the default arm):
+			// ShouldAddOne is evaluated for this mode as a whole
+			if !okTop || expectedDecision(mode, false, 0) == "?" {
+				r.bad(key, "?", "no single in-package decision function ("+cal+")")
+				continue
+			}
+			var diffs, cells []string
+			for _, neg := range []bool{false, true} {
+				for _, half := range []int64{-1, 0, 1} {
+					got := w.modeDecision(top, topPaths, consts[mode], neg, half)
+					want := expectedDecision(mode, neg, half)
+					k := fmt.Sprintf("neg=%v,half=%+d", neg, half)
+					cells = append(cells, k+"→"+got)
+					if got != want {
+						diffs = append(diffs, fmt.Sprintf("%s: returns %s, mode requires %s", k, got, want))
+					}
+				}
+			}
+			if len(diffs) > 0 {
+				sort.Strings(diffs)
+				r.bad(key, w.pos(top.Pos()), "ShouldAddOne evaluated for "+mode+": "+strings.Join(diffs, "; "))
+			} else {
+				r.ok(key, w.pos(top.Pos()), "ShouldAddOne evaluated for "+mode+" (decision computed in its own case): "+strings.Join(cells, " "), true)
+			}
 			continue
 		}
 		if expectedDecision(mode, false, 0) == "?" {
@@ -373,6 +469,17 @@ func ruleDecisionTables(w *World, r *RuleResult) {
 		if err != nil {
 			r.undecided(key, w.pos(g.Pos()), "cannot evaluate "+cal+": "+err.Error())
 			continue
+		}
+		// … and ShouldAddOne as a whole for this mode, with the arguments its case really passes
+		if okTop {
+			for _, neg := range []bool{false, true} {
+				for _, half := range []int64{-1, 0, 1} {
+					k := fmt.Sprintf("neg=%v,half=%+d", neg, half)
+					if got := w.modeDecision(top, topPaths, consts[mode], neg, half); got != expectedDecision(mode, neg, half) {
+						tab[k] = got + " (through ShouldAddOne's call)"
+					}
+				}
+			}
 		}
 		var diffs []string
 		for _, neg := range []bool{false, true} {
@@ -509,7 +616,12 @@ func ruleInexactThroughDecision(w *World, r *RuleResult) {
 						sites = append(sites, x)
 					}
 				case ssa.CallInstruction:
-					for _, v := range x.Common().Args {
+					for ai, v := range x.Common().Args {
+						// a flag set handed to a parameter that the callee only ever uses as a mask (res &^ ignored)
+						// names flags to remove, it raises nothing
+						if g := callee(x); g != nil && w.inPkg(g) && ai < len(g.Params) && paramOnlyMasks(g.Params[ai]) {
+							continue
+						}
 						ops = append(ops, v)
 						sites = append(sites, x)
 					}
@@ -531,6 +643,8 @@ func ruleInexactThroughDecision(w *World, r *RuleResult) {
 					switch {
 					case bits&overflow != 0:
 						r.ok(key, w.instrPos(site), "overflow to infinity: Inexact by definition, no rounding decision involved", false)
+					case orChainHasBits(in, overflow, 0):
+						r.ok(key, w.instrPos(site), "or-ed onto a value that already carries Overflow (the bits of an overflow added one by one): Inexact by definition, no rounding decision involved", false)
 					case w.inexactByDef(f) != "":
 						r.ok(key, w.instrPos(site), "tabled: "+w.inexactByDef(f), false)
 					default:
@@ -562,4 +676,187 @@ func (w *World) inexactByDef(f *ssa.Function) string {
 		return inexactByDefinition[k]
 	}
 	return ""
+}
+
+// orChainHasBits: in is `v | K` and v (through further `| K'` steps) had a constant with one of the bits
+// or-ed into it already.
+func orChainHasBits(in ssa.Instruction, bits uint64, depth int) bool {
+	bo, ok := in.(*ssa.BinOp)
+	if !ok || bo.Op != token.OR || depth > 6 {
+		return false
+	}
+	for _, o := range []ssa.Value{bo.X, bo.Y} {
+		if v, isK := condBits(o); isK {
+			if depth > 0 && v&bits != 0 && v < 1<<12 {
+				return true
+			}
+			continue
+		}
+		if inner, isB := o.(*ssa.BinOp); isB && orChainHasBits(inner, bits, depth+1) {
+			return true
+		}
+	}
+	return false
+}
+
+// paramOnlyMasks: every use of the Condition parameter is as the right operand of &^, or complemented and
+// then and-ed: the parameter is a set of flags to clear.
+func paramOnlyMasks(p *ssa.Parameter) bool {
+	refs := p.Referrers()
+	if refs == nil || !typeIs(p.Type(), apdPath, "Condition") || isPointer(p.Type()) {
+		return false
+	}
+	n := 0
+	for _, u := range *refs {
+		switch x := u.(type) {
+		case *ssa.DebugRef:
+		case *ssa.BinOp:
+			if x.Op != token.AND_NOT || x.Y != ssa.Value(p) {
+				return false
+			}
+			n++
+		case *ssa.UnOp:
+			if x.Op != token.XOR || x.Referrers() == nil {
+				return false
+			}
+			for _, uu := range *x.Referrers() {
+				if bo, ok := uu.(*ssa.BinOp); !ok || bo.Op != token.AND {
+					if _, isDbg := uu.(*ssa.DebugRef); !isDbg {
+						return false
+					}
+				}
+			}
+			n++
+		default:
+			return false
+		}
+	}
+	return n > 0
+}
+
+// modeDecision evaluates ShouldAddOne itself for the rounding mode whose constant is m and one cell of
+// the finite domain: the comparisons of the receiver with the mode strings are decided by m, the decision
+// may be computed in the case itself or by a decision function the case calls (evaluated with the
+// arguments of that very call). The result is "T", "F" or "TF" (depends on the result digit).
+func (w *World) modeDecision(f *ssa.Function, paths []Path, m string, neg bool, half int64) string {
+	env := &absEnv{neg: neg, half: half}
+	res := map[tri]bool{}
+	for _, p := range paths {
+		feasible := true
+		for _, d := range p.Decisions {
+			v := tU
+			if bo, ok := d.Cond.(*ssa.BinOp); ok && (bo.Op == token.EQL || bo.Op == token.NEQ) {
+				var k *ssa.Const
+				var other ssa.Value
+				if c, isK := bo.Y.(*ssa.Const); isK {
+					k, other = c, bo.X
+				} else if c, isK := bo.X.(*ssa.Const); isK {
+					k, other = c, bo.Y
+				}
+				if k != nil && k.Value != nil && k.Value.Kind() == constant.String && len(f.Params) > 0 && other == ssa.Value(f.Params[0]) {
+					eq := constant.StringVal(k.Value) == m
+					if bo.Op == token.NEQ {
+						eq = !eq
+					}
+					v = tF
+					if eq {
+						v = tT
+					}
+				}
+			}
+			if v == tU {
+				v = evalBool(d.Cond, env, f, p)
+			}
+			if v == tU {
+				continue
+			}
+			if (v == tT) != d.Val {
+				feasible = false
+				break
+			}
+		}
+		if !feasible || len(p.Ret.Results) != 1 {
+			continue
+		}
+		rv := phiOnPath(p.Ret.Results[0], p)
+		if call, isCall := rv.(*ssa.Call); isCall {
+			if g := callee(call); g != nil && w.inPkg(g) && len(g.Blocks) > 0 {
+				for t := range w.evalDecisionCallee(g, call, env, f, p, 0) {
+					res[t] = true
+				}
+				continue
+			}
+		}
+		res[evalBool(rv, env, f, p)] = true
+	}
+	out := ""
+	if res[tT] || res[tU] {
+		out += "T"
+	}
+	if res[tF] || res[tU] {
+		out += "F"
+	}
+	return out
+}
+
+func (w *World) evalDecisionCallee(g *ssa.Function, call *ssa.Call, env *absEnv, f *ssa.Function, p Path, depth int) map[tri]bool {
+	out := map[tri]bool{}
+	if depth > 2 {
+		out[tU] = true
+		return out
+	}
+	paths, ok := enumPaths(g, 4096)
+	if !ok {
+		out[tU] = true
+		return out
+	}
+	bind := map[*ssa.Parameter]absVal{}
+	for i, prm := range g.Params {
+		if i >= len(call.Common().Args) {
+			continue
+		}
+		a := call.Common().Args[i]
+		bt, isB := prm.Type().Underlying().(*types.Basic)
+		if !isB {
+			continue
+		}
+		switch {
+		case bt.Kind() == types.Bool:
+			if t := evalBool(a, env, f, p); t != tU {
+				bind[prm] = absVal{known: true, b: t}
+			}
+		case bt.Info()&types.IsInteger != 0:
+			if n, okN := evalInt(phiOnPath(a, p), env, f); okN {
+				bind[prm] = absVal{known: true, n: n, isInt: true}
+			}
+		}
+	}
+	env2 := &absEnv{bind: bind}
+	for _, gp := range paths {
+		feasible := true
+		for _, d := range gp.Decisions {
+			v := evalBool(d.Cond, env2, g, gp)
+			if v == tU {
+				continue
+			}
+			if (v == tT) != d.Val {
+				feasible = false
+				break
+			}
+		}
+		if !feasible || len(gp.Ret.Results) != 1 {
+			continue
+		}
+		rv := phiOnPath(gp.Ret.Results[0], gp)
+		if c2, isCall := rv.(*ssa.Call); isCall {
+			if h := callee(c2); h != nil && w.inPkg(h) && len(h.Blocks) > 0 {
+				for t := range w.evalDecisionCallee(h, c2, env2, g, gp, depth+1) {
+					out[t] = true
+				}
+				continue
+			}
+		}
+		out[evalBool(rv, env2, g, gp)] = true
+	}
+	return out
 }
